@@ -815,6 +815,25 @@ def _float_box(rng):
     return "tric", [[a, 0, 0], [rng.uniform(-0.5, 0.5) * a, b, 0], [rng.uniform(-0.5, 0.5) * a, rng.uniform(-0.5, 0.5) * b, c]]
 
 
+def _skewed_box(rng):
+    """strongly skewed (non-reduced) triclinic cell: at least one angle in 28..55 or 125..150 degrees, heights >= 5"""
+    for _ in range(400):
+        la, lb, lc = (rng.uniform(10, 40) for _ in range(3))
+        angs = [rng.uniform(60, 120) for _ in range(3)]
+        for i in rng.sample(range(3), rng.choice([1, 1, 2, 3])):
+            angs[i] = rng.choice([rng.uniform(28, 55), rng.uniform(125, 150)])
+        al, be, ga = (math.radians(x) for x in angs)
+        cx = lc * math.cos(be)
+        cy = lc * (math.cos(al) - math.cos(be) * math.cos(ga)) / math.sin(ga)
+        cz2 = lc * lc - cx * cx - cy * cy
+        if cz2 <= (0.2 * lc) ** 2:
+            continue
+        box = [[la, 0, 0], [lb * math.cos(ga), lb * math.sin(ga), 0], [cx, cy, math.sqrt(cz2)]]
+        if min(_heights_f(box)) >= 5.0:
+            return "tric-skew", box
+    return _float_box(rng)
+
+
 def _molecule(rng, n):
     """random tree with ~1.5 A bonds; returns (coords, bonds) in generation order (parent index < child index)"""
     coords = [[_fl(rng, 3) for _ in range(3)]]
@@ -900,8 +919,8 @@ def gen_float(rng):
             lens = [rng.uniform(1, 100) for _ in range(3)]
             angs = [rng.choice([90.0, 90.0, 120.0, 60.0, rng.uniform(50, 130)]) for _ in range(3)]
         return {"kind": "f-unitcell", "lens": lens, "angs": angs, "aniso": aniso, "f32": mode == "f32", "seed": seed}
-    # molecules wrapped across faces
-    kind, box = _float_box(rng)
+    # molecules wrapped across faces, edges and corners (every combination of lattice vectors, also mixed ones like -a+b)
+    kind, box = _skewed_box(rng) if rng.random() < 0.4 else _float_box(rng)
     mols = []
     for _ in range(rng.choice([1, 2, 3])):
         n = rng.choice([1, 2, 5, 9, 14])
@@ -909,10 +928,21 @@ def gen_float(rng):
         order = list(range(n))
         if rng.random() < 0.3:
             rng.shuffle(order)            # array order no longer follows the bonds
-        centre = [sum(rng.uniform(0, 1) * box[r_][i] for r_ in range(3)) for i in range(3)]
+        # place the molecule anywhere, or right at a face / edge / corner of the box (so that wrapping it into the box
+        # splits it by mixed lattice vectors such as -a+b or a+b-c)
+        fr = [rng.choice([rng.uniform(0, 1), rng.uniform(-0.03, 0.03), 1 + rng.uniform(-0.03, 0.03)]) for _ in range(3)]
+        centre = [sum(fr[r_] * box[r_][i] for r_ in range(3)) for i in range(3)]
+        if rng.random() < 0.5:
+            shift = [[rng.randint(-2, 2) for _ in range(3)] for _ in range(n)]
+        else:
+            # the tail of the array is wrapped by ONE (mostly mixed) lattice vector, the head stays
+            combo = rng.choice([[-1, 1, 0], [1, -1, 0], [1, 1, -1], [-1, 0, 1], [0, 1, -1], [1, 1, 0], [-1, -1, 1],
+                                [rng.randint(-1, 1) for _ in range(3)]])
+            cut = rng.randrange(n) if n > 1 else 0
+            shift = [[0, 0, 0] if j < cut else combo for j in range(n)]
         mols.append({"coords": [[coords[j][k] + centre[k] for k in range(3)] for j in order],
                      "bonds": [[order.index(p), order.index(c)] for p, c in bonds],
-                     "shift": [[rng.randint(-2, 2) for _ in range(3)] for _ in range(n)],
+                     "shift": shift,
                      "stretch": 1.0 if rng.random() < 0.85 else rng.uniform(2.0, 12.0)})
     return {"kind": "f-rpbc", "dt": dt, "boxkind": kind, "box": box, "mols": mols,
             "wrap": rng.choice(["shift", "shift", "inside"]), "seed": seed}
@@ -982,6 +1012,36 @@ def _gen_transform(rng, seed):
     case = {"kind": "f-transform", "motion": motion, "seed": seed, "dt": rng.choice(["f32", "f64"]),
             "params": [rng.uniform(-math.pi, math.pi) for _ in range(9)],
             "points": [[_fl(rng, 20) for _ in range(3)] for _ in range(6)], "positions": rng.random() < 0.5}
+    if motion == "rotate_about_axis":
+        # axes of every length: unit, nearly unit (1 +- 1e-2 .. 1e-6, e.g. a unit vector typed with a few decimals),
+        # integer, tiny and huge ones -- the axis must be normalised whatever its length
+        amode = rng.choice(["unit", "near-unit", "near-unit", "near-unit", "decimals", "decimals", "integer", "tiny", "huge", "any"])
+        u = _unit(rng)
+        if amode == "unit":
+            axis = u
+        elif amode == "near-unit":
+            f_ = 1 + rng.choice([-1, 1]) * 10 ** rng.uniform(-6, -2)
+            axis = [x * f_ for x in u]
+        elif amode == "decimals":
+            u = rng.choice([u, [3 ** -0.5] * 3, [0.0, 0.6, 0.8], [2 ** -0.5, 0.0, -(2 ** -0.5)]])
+            axis = [round(x, rng.choice([2, 3, 4])) for x in u]
+            if not any(axis):
+                axis = [0.0, 0.0, 1.0]
+        elif amode == "integer":
+            while True:
+                axis = [float(rng.randint(-4, 4)) for _ in range(3)]
+                if any(axis):
+                    break
+        elif amode == "tiny":
+            f_ = 10 ** rng.uniform(-12, -3)
+            axis = [x * f_ for x in u]
+        elif amode == "huge":
+            f_ = 10 ** rng.uniform(3, 12)
+            axis = [x * f_ for x in u]
+        else:
+            axis = [x * rng.uniform(0.1, 10) for x in u]
+        case["axis"], case["axis_mode"] = axis, amode
+        case["angle"] = rng.choice([rng.uniform(-math.pi, math.pi), rng.uniform(0.5, 3.0), math.pi / 2, 2.0])
     if motion == "align_vectors":
         mode = rng.choice(["generic", "generic", "near-antiparallel", "near-antiparallel", "antiparallel", "antiparallel", "parallel"])
         case["mode"] = mode
@@ -1565,7 +1625,7 @@ def _o_transform(case):
         elif motion == "rotate_centered":
             out = struc.rotate_centered(probe, mp[:3])
         elif motion == "rotate_about_axis":
-            out = struc.rotate_about_axis(probe, [mp[0], mp[1], mp[2] + 4.0], mp[3], support=o_pos)
+            out = struc.rotate_about_axis(probe, case.get("axis", [mp[0], mp[1], mp[2] + 4.0]), case.get("angle", mp[3]), support=o_pos)
         elif motion == "translate":
             out = struc.translate(probe, [mp[0] * 10, mp[1] * 10, mp[2] * 10])
         else:
@@ -1581,6 +1641,8 @@ def _o_transform(case):
     orth = float(np.abs(R.T @ R - np.eye(3)).max())
     det = float(np.linalg.det(R))
     what = f"{motion}" + (f" ({case.get('mode')}: {case['origin']} -> {case['target']})" if motion == "align_vectors" else "")
+    if motion == "rotate_about_axis" and "axis" in case:
+        what += f" ({case['axis_mode']} axis {case['axis']}, |axis| = {math.sqrt(sum(x * x for x in case['axis']))!r}, angle {case['angle']!r})"
     if orth > tol:
         v.append((f"C15/{motion}/not-orthonormal", f"{what}: max |RtR - 1| = {orth:.3g}, det = {det:.6f}"))
     elif abs(det - 1) > tol:
@@ -1591,7 +1653,7 @@ def _o_transform(case):
     for i in range(len(pts_in)):
         for j in range(i):
             d0, d1 = float(np.linalg.norm(pts_in[i] - pts_in[j])), float(np.linalg.norm(pts_out[i] - pts_out[j]))
-            if abs(d0 - d1) > 64 * EPS["f32"] * mag:
+            if abs(d0 - d1) > 64 * EPS["f32"] * mag or abs(d0 - d1) > 1e-5 * max(d0, mag):
                 v.append((f"C15/{motion}/distance-not-preserved", f"{what}: {d0!r} -> {d1!r}"))
                 break
         else:
